@@ -93,6 +93,7 @@ class Conditional(Scenario):
             elif mode == "range":
                 ev["range"] = gen_range(rng, size)
                 ev["if_range"] = rng.choice(["none", "none", "none", "etag_mine", "etag_other", "date_mine", "date_before", "date_after"])
+                ev["ranges"] = rng.choice(["on", "on", "on", "on", "off", "no_length"])
             events.append(["req", ev])
         return {
             "size": size,
@@ -263,8 +264,8 @@ class Conditional(Scenario):
                     d = base + dt.timedelta(seconds={"date_before": -1, "date_after": 1}.get(ir, 0))
                     environ["HTTP_IF_RANGE"] = http_date(d)
                     applies = {ref.trunc(lm) <= d}
-                if method == "POST":
-                    exp_range = {"200"}
+                if method == "POST" or spec.get("ranges", "on") in ("off", "no_length"):
+                    exp_range = {"200"}  # not a GET/HEAD, ranges not enabled or the length unknown: the Range header is ignored
                 else:
                     exp_range = set()
                     if True in applies:
@@ -284,7 +285,13 @@ class Conditional(Scenario):
             resp.headers["Date"] = http_date(now)
             status = None
             try:
-                resp.make_conditional(environ, accept_ranges=True, complete_length=len(content))
+                rmode = spec.get("ranges", "on") if mode == "range" else "on"
+                if rmode == "off":
+                    resp.make_conditional(environ, accept_ranges=False, complete_length=len(content))
+                elif rmode == "no_length":
+                    resp.make_conditional(environ, accept_ranges=True)
+                else:
+                    resp.make_conditional(environ, accept_ranges=True, complete_length=len(content))
             except RequestedRangeNotSatisfiable:
                 status = 416
             except Exception as e:  # noqa: BLE001
